@@ -1856,7 +1856,20 @@ impl Drop for Tree {
 					}
 				});
 			} else {
-				log::warn!("No runtime available for closing the store correctly");
+				// Dropped on a thread that is not inside a runtime: close right here on a
+				// temporary one (the background tasks run on the runtime the store was
+				// built on; waiting for them works across runtimes). Without this the
+				// tasks would keep the store, and with it the directory lock, alive.
+				match tokio::runtime::Builder::new_current_thread().enable_all().build() {
+					Ok(rt) => {
+						if let Err(err) = rt.block_on(self.core.close()) {
+							log::error!("Error closing store: {}", err);
+						}
+					}
+					Err(err) => {
+						log::warn!("No runtime available for closing the store correctly: {}", err)
+					}
+				}
 			}
 		}
 	}
